@@ -48,6 +48,17 @@ var properties = map[string]PropSpec{
 				c.ruleCapInv()
 				c.ruleSlot0Stores()
 				c.ruleSeq()
+				// element stores keep clear of slot 0 and stay in range with every bound re-established after the lock
+				saved := c.nilA
+				c.nilA = nil
+				var roots []*ssa.Function
+				for _, n := range lockMutators {
+					if f := c.p.ByName[n]; f != nil {
+						roots = append(roots, f)
+					}
+				}
+				c.ruleSlot0ElemsIn(c.reach(roots...))
+				c.nilA = saved
 			})
 			c.rep.floor("R-LOCK", 60)
 			c.rep.floor("R-CAP", 10)
